@@ -15,8 +15,13 @@
 (*                             carried but not compared                                               *)
 (*   byron_ebb                 body_hash = H(body)                                                    *)
 (*                                                                          *)
-(*   DecodeOk(block, validate) <=> ~validate \/ every compared commitment   *)
-(*                                 equals its recomputation from the body   *)
+(*   DecodeOk(block, cfg) <=> every commitment compared under cfg equals    *)
+(*                            its recomputation from the body               *)
+(*                                                                          *)
+(* cfg is the caller's VerifyConfig: "skip" (SkipBodyHashValidation: nothing *)
+(* is compared), "default", "ssc_hash" (EnableByronSscProofHashValidation:  *)
+(* the Byron ssc proof is compared IN ADDITION).  No configuration with     *)
+(* body validation enabled compares less than the default one.              *)
 EXTENDS Naturals, Sequences, FiniteSets, SequencesExt, Json, TLC
 
 CONSTANTS NVals,    \* a body part has one of NVals contents
@@ -80,10 +85,16 @@ OrigCommitTable == [e \in Eras |-> Commit(e, Orig(e))]
 Commitments(e) == DOMAIN OrigCommitTable[e]
 \* what decoding compares: everything but the Byron ssc proof
 Compared(e)    == Commitments(e) \ {"ssc"}
+Configs        == {"skip", "default", "ssc_hash"}
+Validating     == Configs \ {"skip"}
+ComparedIn(e, cfg) ==
+    CASE cfg = "skip"     -> {}
+      [] cfg = "default"  -> Compared(e)
+      [] cfg = "ssc_hash" -> Compared(e) \cup (Commitments(e) \cap {"ssc"})
 
 \* a block: header commitments hdr and body b
-Failing(e, hdr, b) == {k \in Compared(e) : hdr[k] # Commit(e, b)[k]}
-DecodeOk(e, hdr, b, validate) == ~validate \/ Failing(e, hdr, b) = {}
+Failing(e, hdr, b, cfg) == {k \in ComparedIn(e, cfg) : hdr[k] # Commit(e, b)[k]}
+DecodeOk(e, hdr, b, cfg) == Failing(e, hdr, b, cfg) = {}
 
 \* the part of the body the property speaks about (the ssc payload is excluded)
 Covered(e, b) == [p |-> [x \in PartSet(e) \ {"ssc_payload"} |-> b.p[x]], txs |-> b.txs]
@@ -98,32 +109,41 @@ Hdr(e, hm) == IF hm = "none" THEN OrigCommitTable[e]
 OrigCoveredTable == [e \in Eras |-> Covered(e, Orig(e))]
 
 VARIABLE c
-Init == \E e \in Eras : \E b \in Bodies(e), hm \in HdrMuts(e), v \in BOOLEAN :
-            c = [era |-> e, body |-> b, hm |-> hm, validate |-> v]
+Init == \E e \in Eras : \E b \in Bodies(e), hm \in HdrMuts(e), g \in Configs :
+            c = [era |-> e, body |-> b, hm |-> hm, cfg |-> g]
 Next == UNCHANGED c
 
-Ok(x) == DecodeOk(x.era, Hdr(x.era, x.hm), x.body, x.validate)
+Ok(x) == DecodeOk(x.era, Hdr(x.era, x.hm), x.body, x.cfg)
 
 \* every real (= well-formed, unmutated) block decodes, validated or not
 RealBlocksDecode == (c.hm = "none" /\ c.body = Orig(c.era)) => Ok(c)
 \* more generally every well-formed block does: recompute the header for the body
-WellFormedDecodes == DecodeOk(c.era, Commit(c.era, c.body), c.body, c.validate)
+WellFormedDecodes == DecodeOk(c.era, Commit(c.era, c.body), c.body, c.cfg)
 \* with validation skipped nothing is compared
-SkipComparesNothing == ~c.validate => Ok(c)
+SkipComparesNothing == c.cfg = "skip" => Ok(c)
 \* the binding: a body that differs from the committed one in a covered part is refused
-Binding == (c.validate /\ Covered(c.era, c.body) # OrigCoveredTable[c.era]) => ~Ok(c)
+Binding == (c.cfg \in Validating /\ Covered(c.era, c.body) # OrigCoveredTable[c.era]) => ~Ok(c)
 \* ... and so is a header whose compared commitment is not the body's
-HeaderBinding == (c.validate /\ c.hm \in Compared(c.era)) => ~Ok(c)
+HeaderBinding == (c.cfg \in Validating /\ c.hm \in Compared(c.era)) => ~Ok(c)
 \* the documented hole: the Byron ssc payload and proof are not compared
 SscNotCompared ==
-    (c.era = "byron_main" /\ c.hm \in {"none", "ssc"} /\ Covered(c.era, c.body) = OrigCoveredTable[c.era]) => Ok(c)
+    (c.era = "byron_main" /\ c.cfg = "default" /\ c.hm \in {"none", "ssc"} /\ Covered(c.era, c.body) = OrigCoveredTable[c.era]) => Ok(c)
+\* no configuration with validation enabled binds less than the default one:
+\* what it accepts the default accepts, and the verdict on the covered parts
+\* and compared commitments is the same in all of them
+NoConfigWeakens ==
+    c.cfg \in Validating =>
+        /\ Compared(c.era) \subseteq ComparedIn(c.era, c.cfg)
+        /\ (Ok(c) => Ok([c EXCEPT !.cfg = "default"]))
+        /\ (Failing(c.era, Hdr(c.era, c.hm), c.body, c.cfg) \cap Compared(c.era)
+               = Failing(c.era, Hdr(c.era, c.hm), c.body, "default"))
 \* every compared commitment is needed: some case is refused by it alone
 EachComparedNeeded ==
-    \A e \in Eras : \A k \in Compared(e) : Failing(e, Hdr(e, k), Orig(e)) = {k}
+    \A e \in Eras : \A k \in Compared(e) : Failing(e, Hdr(e, k), Orig(e), "default") = {k}
 \* every part but the ssc payload is under some compared commitment
 EveryPartCovered ==
     \A e \in Eras : \A x \in PartSet(e) \ {"ssc_payload"} : \A v \in Vals \ {OrigVal(e, x)} :
-        Failing(e, Hdr(e, "none"), [Orig(e) EXCEPT !.p[x] = v]) # {}
+        Failing(e, Hdr(e, "none"), [Orig(e) EXCEPT !.p[x] = v], "default") # {}
 \* (these two speak about the eras, not about a case: checked once)
 ASSUME EachComparedNeeded
 ASSUME EveryPartCovered
@@ -136,7 +156,7 @@ OrderMatters ==
             sw == [b EXCEPT !.p[pi] = b.p[pj], !.p[pj] = b.p[pi]]
         IN (c.era # "byron_main" /\ b.p[pi] # b.p[pj]) => Commit(c.era, sw) # Commit(c.era, b)
 
-NumCases == LET n(e) == Cardinality(Bodies(e)) * Cardinality(HdrMuts(e)) * 2
+NumCases == LET n(e) == Cardinality(Bodies(e)) * Cardinality(HdrMuts(e)) * Cardinality(Configs)
             IN n("byron_ebb") + n("byron_main") + n("shelley") + n("allegra") + n("mary")
                + n("alonzo") + n("babbage") + n("conway") + n("dijkstra")
 AllCasesVisited == TLCGet("distinct") = NumCases
@@ -181,15 +201,15 @@ Excluded(m) == m[2] \in {"ssc_payload", "ssc"} \/ m[1] = "framing"
 
 Row(e, m, v) ==
     LET r == Rep(e, m) IN
-    [era |-> e, mut |-> m[1], target |-> m[2], validate |-> v,
+    [era |-> e, mut |-> m[1], target |-> m[2], config |-> v, validate |-> (v # "skip"),
      decode_ok |-> DecodeOk(e, Hdr(e, r[1]), r[2], v),
-     failing |-> IF v THEN SetToSeq(Failing(e, Hdr(e, r[1]), r[2])) ELSE <<>>,
+     failing |-> SetToSeq(Failing(e, Hdr(e, r[1]), r[2], v)),
      excluded |-> Excluded(m)]
 
 \* the representatives are cases of the model (so the invariants above speak about them)
 RepsAreCases == \A e \in Eras : \A m \in Classes(e) : Rep(e, m)[2] \in Bodies(e) /\ Rep(e, m)[1] \in HdrMuts(e)
 ASSUME RepsAreCases
 
-Rows == UNION {{Row(e, m, v) : m \in Classes(e), v \in BOOLEAN} : e \in Eras}
+Rows == UNION {{Row(e, m, v) : m \in Classes(e), v \in Configs} : e \in Eras}
 ASSUME ndJsonSerialize("cases.ndjson", SetToSeq(Rows))
 =============================================================================
